@@ -302,7 +302,7 @@ func (e *Engine) loopContractFor(fn *ssa.Function) *Contract {
 		return nil
 	}
 	for _, c := range e.contracts {
-		if c.FuncKey == key && (len(c.Invariants) > 0 || len(c.Decreases) > 0) {
+		if c.FuncKey == key && len(c.Ghosts) == 0 && (len(c.Invariants) > 0 || len(c.Decreases) > 0) {
 			if _, err := e.prepareContract(c); err != nil {
 				panic(specError(err.Error()))
 			}
